@@ -158,6 +158,9 @@ def gen_cases(rng, tier):
     # every in-place operator of every class x operand units {None, unitless, dimensionless ratios, ordinary}
     for cn, name, u, prog in S.gen_inplace_units(rng, 2 if thorough else 1):
         progs.append((cn, name + ':units=' + u, prog))
+    # every in-place operator of every class x (same-rank operands with unit axes and array masks | plain numbers)
+    for cn, name, what, prog in S.gen_inplace_shapes(rng, 2 if thorough else 1):
+        progs.append((cn, name + ':' + what, prog))
     outs = _pmap(_run_gen, [p for _, _, p in progs])
     for n, ((cn, name, prog), out) in enumerate(zip(progs, outs)):
         dumps = [d for d, _, _, _ in out]
